@@ -81,7 +81,7 @@ CLAIMS = {
         "direction, carrying the consumed volume. The floating-point Renko is driven with prices exactly on and one ulp around the "
         "boundaries taken from its own serialized state; every step is tied to one exact model step and the emitted blocks are "
         "checked against the property.",
-   note=COMMON_NOTE + NUM_NOTE + "PARTIAL: Renko's falling branch is validated, its theorem is not written; 'never panics on a "
+   note=COMMON_NOTE + NUM_NOTE + "The aggregate OHLCV view closes where the last brick closes (theorem; the code added the relative gap to the base line: fixed). PARTIAL: 'never panics on a "
         "boundary price' is a floating-point fact shown by the adaptive differential run, not by a theorem.",
    ref="DESIGN.md §5 C17"),
 
@@ -166,24 +166,30 @@ CLAIMS = {
    ref="DESIGN.md §5 C15"),
 
  "C05": dict(cat="proof", tech="Lean 4 proofs about hand-written indicator models (composition of realised averages / extremum trackers, invariants lifted over candle lists) + per-step differential replay of every indicator value under the rounding allowance",
-   text="34 of the 36 indicators are modelled (all but FisherTransform and TrendStrengthIndex) with init/validate and all 15 MA kinds. Theorems (exact arithmetic, "
+   text="All 36 indicators are modelled with init/validate and all 15 MA kinds (TrendStrengthIndex p/sqrt(q) compared on the square, FisherTransform's atanh against a rational approximation). Theorems (exact arithmetic, "
         "every stream): MA instances realise their history function for ever (SMA, EMA), MACD = f1 - f2 and signal line = f3 of its history, "
         "Donchian bounds are extremes of the last n highs/lows from init on, RSI and CMO value formulas behind their guards, MFI's expression "
-        "equals pmf/(pmf+nmf), SAR returns the post-flip state. Every value the real code returns (every indicator, random valid configurations "
+        "equals pmf/(pmf+nmf), SAR returns the post-flip state; step theorems from invariant states (histories of realised averages, extremum "
+        "trackers, window sums) for Stochastic, Keltner, Ichimoku (with its constructor), CMF, MFI (with its constructor), ADX, TrendStrengthIndex, "
+        "FisherTransform. Every value the real code returns (every indicator, random valid configurations "
         "via the string setters, 6 candle classes) must lie within the allowance of the exact model's value.",
-   note=COMMON_NOTE + NUM_NOTE + "PARTIAL: FisherTransform (atanh) and TrendStrengthIndex (sqrt of a running variance) have no model; whole-history value theorems exist "
-        "for MACD, Donchian, Aroon, Bollinger, RSI, CMO, SAR; the other 27 models are validated by the run only. Known finding: configurations using the Vidya average (residue amplification, see C03).",
+   note=COMMON_NOTE + NUM_NOTE + "PARTIAL: value theorems exist for MACD, Donchian, Aroon, Bollinger, RSI, CMO, SAR, Stochastic, Keltner, Ichimoku, CMF, MFI, ADX, "
+        "TrendStrengthIndex, FisherTransform; the other 21 models are validated by the run only; atanhQ's accuracy (FisherTransform) is trusted, not proved. "
+        "Known findings: configurations using the Vidya average (residue amplification, see C03); KeltnerChannel returns [source, upper, lower] where its "
+        "documentation lists upper, source, lower (DESIGN 7.1).",
    ref="DESIGN.md §5 C05"),
  "C06": dict(cat="proof", tech="Lean 4 proofs of the signal rules of the indicator models (crossing rule, band touches, counters, SAR flip) + exact differential replay of every signal against the rule applied to the implementation's own values",
    text="The model's signal functions take the returned values as input; the run applies them to the exact rationals of the floats the real code "
         "returned, rounding code-formed thresholds (1 - zone) and candle sources as the code does, so every crossing / touch / zone / flip decision "
-        "of the 34 modelled indicators is compared exactly at every step; proportional strengths must hit the quantiser level of the exact argument. "
+        "of the 36 modelled indicators is compared exactly at every step; proportional strengths must hit the quantiser level of the exact argument. "
         "Theorems: MACD signals are the C14 crossing rule on (macd, signal) and (macd, 0); Donchian / PriceChannel / Envelopes rules as case "
         "distinctions; Aroon counters count consecutive in-zone steps and reset; SAR signal fires iff the returned trend changed, in its direction, "
         "for every reachable state.",
    note=COMMON_NOTE + "Rule theorems also for RSI, MFI, CMF, CMO, Keltner, Stochastic (compositions of C14 detectors and C16 subtraction). PARTIAL: the second-tier "
-        "indicators, Ichimoku, TSI/SMI, Bollinger rules are validated by the run only; 2 indicators have no model. Steps after a non-finite value "
-        "and SAR cases after a flip decision within 64 ulp are exempt and counted.",
+        "indicators, Ichimoku, TSI/SMI, Bollinger rules are validated by the run only. Steps after a non-finite value "
+        "and SAR cases after a flip decision within 64 ulp are exempt and counted. Known findings (DESIGN 7.1): the code contradicts the documented "
+        "sign of KeltnerChannel #1, RelativeVigorIndex #2, TrendStrengthIndex #1/#2 (reported by a separate documented-rule check on steps that agree "
+        "with the model of the code); WoodiesCCI's never-firing signal was fixed.",
    ref="DESIGN.md §5 C06"),
  "C12": dict(cat="proof", tech="Lean 4 range / ordering proofs on the exact models (quotients of non-negative sums, channel containment, SAR side invariant) + strict range test on the implementation's own values at every step",
    text="Theorems (exact arithmetic): RSI, MFI values in [0,1] and (P-N)/(P+N) in [-1,1] for non-negative operands; Chande momentum keeps its sums equal to "
@@ -192,7 +198,10 @@ CLAIMS = {
         "StDev^2, TR >= 0; CLV in [-1,1]. Run: strict interval/order tests (slack C*eps*k*(hi-lo)) on every returned value of the bounded "
         "indicators incl. non-finite values, volatile->flat->volatile and zero-volume streams; dispersion methods >= 0; CLV/TR on valid candles.",
    note=COMMON_NOTE + NUM_NOTE + "PARTIAL: floats are outside the theorems - exactly where this property bites: known findings MoneyFlowIndex, "
-        "ChandeMomentumOscillator, RelativeStrengthIndex leave their ranges (even +-inf) through rounding residue behind exact == 0 guards. "
+        "ChandeMomentumOscillator leave their ranges (even +-inf) through rounding residue behind exact == 0 guards (RelativeStrengthIndex and the "
+        "TrendStrengthIndex NaN were fixed); documented ranges the formulas do not imply (ChaikinOscillator [-1,1], RelativeVigorIndex [-0.5,0.5], ADX +-DI [0,1]) "
+        "are reported as doc-range findings (DESIGN 7.1). Whole-stream theorems: MFI in [0,1] from its constructor for every stream with non-negative volumes; "
+        "TrendStrengthIndex p^2 <= q (Cauchy-Schwarz), i.e. |value| <= 1 wherever defined. "
         "Theorems also for LinearVolatility / MeanAbsDev >= 0, Keltner and Envelopes ordering, the CMF range (|sum CLV*vol| <= sum vol over the same window) and the TSI range (domination of the double smoothing); smoothed Stochastic / SMI signal-line ranges are run-only.",
    ref="DESIGN.md §5 C12"),
  "C07": dict(cat="proof", tech="Lean 4 proofs of window locality and exponential forgetting (reduction of every history length to a bounded suffix) + late-position differential run on long streams",
